@@ -9,6 +9,7 @@
           Text     get_full_text / unit.get_text / image.get_content_type|caption|description   [cls, utf8]
           Num      unit_number of a unit, image_number of an image                                [cls, n]
           OptNum   unit_number of an image (None allowed)                                        [cls, n]
+          Size     width / height of an image's metadata (None or a number)                        [cls]
           Stream   image.get_bytes(), called twice                     [cls, bytes, pos, len, pos2, len2, hassize, size]
           Table    get_table() + get_dim()           [gridcls, rows, widths, cellsutf8, dimcls, dimrows, dimcols]
           FileMeta result.get_metadata(): file name / extension / folder / file path     [fnk, fn, extk, ext, dir, fdir, fpn]
@@ -31,6 +32,7 @@ IsEvent(a) == l <= Len(Traces[tid].ev) /\ Ev.a = a /\ l' = l + 1 /\ UNCHANGED <<
 TraceText   == IsEvent("Text")   /\ TextOK(Ev.cls, Ev.utf8)
 TraceNum    == IsEvent("Num")    /\ NumberOK(Ev.cls, Ev.n)
 TraceOptNum == IsEvent("OptNum") /\ OptNumberOK(Ev.cls, Ev.n)
+TraceSize   == IsEvent("Size")   /\ SizeOK(Ev.cls)
 TraceStream == IsEvent("Stream") /\ StreamOK(Ev)
 TraceTable  == IsEvent("Table")  /\ DimOK(Ev)
 TraceJson   == IsEvent("Json")   /\ Ev.cls = "dict"
@@ -39,6 +41,7 @@ TraceFileMeta ==
     /\ Acceptable(path, [fnk |-> Ev.fnk, fn |-> Ev.fn, extk |-> Ev.extk, ext |-> Ev.ext,
                          dir |-> Ev.dir, fdir |-> Ev.fdir, fpn |-> Ev.fpn])
     /\ (Hdr.fmt \in DOMAIN MetaTypeOf => Ev.mtype = MetaTypeOf[Hdr.fmt])
+    /\ Ev.strsutf8 = TRUE              \* every string the metadata object carries is well-formed Unicode
 TraceProp ==
     /\ IsEvent("Prop")
     /\ PropOK(Hdr.fmt, Ev.mtype, Ev.field, Ev.has, Ev.cls, Ev.stored, Ev.got)
@@ -48,7 +51,7 @@ TraceUnits ==
     /\ (Ev.who = "title" /\ WellPaired(Ev.units)) => Strip(Ev.cps) = Strip(DecodeUnits(Ev.units))
 
 TraceInit == tid \in 1..Len(Traces) /\ l = 1 /\ path = Traces[tid].hdr.path
-TraceNext == \/ TraceText \/ TraceNum \/ TraceOptNum \/ TraceStream \/ TraceTable
+TraceNext == \/ TraceText \/ TraceNum \/ TraceOptNum \/ TraceSize \/ TraceStream \/ TraceTable
              \/ TraceJson \/ TraceFileMeta \/ TraceProp \/ TraceUnits
 TraceSpec == TraceInit /\ [][TraceNext]_vars
 TraceAccept ==
